@@ -18,6 +18,13 @@ def _stats(E, h):
 
 
 def _declare_h(cx, tag, M, kind):
+    if kind == "f32":
+        # a float32 histogram: integer-valued contents below 2^20 (exact in binary32; its rounding is not modelled)
+        x = {"f": [cx.int(f"{tag}f{j}", 0, 2 ** 20) for j in range(M)], "q": [cx.int(f"{tag}q{j}", 0, 2 ** 20) for j in range(M)],
+             "u": cx.int(f"{tag}u", 0, 2 ** 20), "o": cx.int(f"{tag}o", 0, 2 ** 20), "s": [cx.pyfloat(f"{tag}s{n}") for n in STAT_KEYS]}
+        if cx.sym:
+            cx.assume(x["s"][4] >= 0, x["s"][2] <= x["s"][3])
+        return x
     x = {"f": declare_cells(cx, f"{tag}f", [M], kind), "q": declare_cells(cx, f"{tag}q", [M], kind),
          "u": cx.int(f"{tag}u", 0) if kind == "int" else cx.real(f"{tag}u"), "o": cx.int(f"{tag}o", 0) if kind == "int" else cx.real(f"{tag}o"),
          "s": [cx.pyfloat(f"{tag}s{n}") for n in STAT_KEYS]}
@@ -32,7 +39,7 @@ def _mk(E, edges, hx, kind, name=None):
     np = E.np
     H1 = E.mod("physt.histogram1d").Histogram1D
     St = E.mod("physt.statistics").Statistics
-    dt = int if kind == "int" else float
+    dt = int if kind == "int" else ("float32" if kind == "f32" else float)
     s = hx["s"]
     return H1(np.asarray(edges), np.asarray(hx["f"], dtype=dt), np.asarray(hx["q"], dtype=dt), underflow=hx["u"], overflow=hx["o"],
               stats=St(sum=s[0], sum2=s[1], min=s[2], max=s[3], weight=s[4]), name=name)
@@ -63,6 +70,10 @@ class C05Algebra(Harness):
                     continue
                 yield f"sum-M{M}-{''.join(map(str, perm))}", dict(mode="sum", M=M, kinds=["int", "real", "int"], perm=list(perm))
             yield f"colsum-M{M}", dict(mode="colsum", M=M, kinds=["int", "int", "int"])
+            # a narrower float operand: numpy promotion (int64 + float32 -> float64, float32 + float32 -> float32), both orders
+            for ks in (("int", "f32"), ("f32", "f32"), ("real", "f32")):
+                yield f"comm-M{M}-{'-'.join(ks)}", dict(mode="comm", M=M, kinds=list(ks))
+                yield f"iadd-M{M}-{'-'.join(ks)}", dict(mode="iadd", M=M, kinds=list(ks))
             yield f"sum1-M{M}", dict(mode="sum1", M=M, kinds=["int"])
 
     def declare(self, cx, p):
@@ -105,6 +116,7 @@ class C05Algebra(Harness):
             obs["r1"] = _full(E, r)
             obs["r2"] = _full(E, hs[0])
             obs["distinct"] = r is not hs[0]
+            r += hs[0]            # accumulating into the total must not touch the (single) summand
         obs["after"] = [_full(E, h) for h in hs]
         return obs
 
@@ -143,14 +155,17 @@ class C05Algebra(Harness):
             st = r["stats"]
             yield f"{key}_stats_sums", z3.And(cx.eq(st["sum"], zsum(s[0] for s in S)), cx.eq(st["sum2"], zsum(s[1] for s in S)), cx.eq(st["weight"], zsum(s[4] for s in S)))
             yield f"{key}_stats_minmax", z3.And(cx.eq(st["min"], zmin([s[2] for s in S])), cx.eq(st["max"], zmax([s[3] for s in S])))
-            expected_dtype = "float64" if "real" in p["kinds"] else "int64"
+            ks = set(p["kinds"])
+            expected_dtype = "float64" if ("real" in ks or ks == {"int", "f32"}) else ("float32" if ks == {"f32"} else "int64")
             yield f"{key}_dtype", r["dtype"] == expected_dtype == r["fdtype"] == r["edtype"]
             yield f"{key}_name", r["name"] == "n"
+        if "distinct" in obs:
+            yield "result_is_a_new_object", obs["distinct"] is True
         for i in range(n):
             a = obs["after"][i]
             yield f"operand_unchanged[{i}]", z3.And([cx.eq(a["freq"][j], F[i][j]) for j in range(M)] + [cx.eq(a["err2"][j], Q[i][j]) for j in range(M)]
                                                    + [cx.eq(a["under"], U[i]), cx.eq(a["over"], O[i]), cx.eq(a["stats"]["sum"], S[i][0]), cx.eq(a["stats"]["weight"], S[i][4]),
-                                                      z3.BoolVal(a["dtype"] == ("float64" if p["kinds"][i] == "real" else "int64"))])
+                                                      z3.BoolVal(a["dtype"] == {"real": "float64", "f32": "float32"}.get(p["kinds"][i], "int64"))])
 
 
 @register
